@@ -96,7 +96,7 @@ fn same_shape(a: &Value, b: &Value) -> bool {
                 return true;
             }
             match (x.as_f64(), y.as_f64()) {
-                (Some(p), Some(q)) => p == q || ((p - q).abs() <= 4.0 * f64::EPSILON * p.abs().max(q.abs())),
+                (Some(p), Some(q)) => close(p, q),
                 _ => false,
             }
         }
